@@ -25,6 +25,17 @@ theorem flatMap_encBytes_length (C : Codecs) (typ : String) (size : Nat) (vs : L
     simp only [List.flatMap_cons, List.length_append, List.length_cons, Nat.mul_succ]
     rw [h v (List.mem_cons_self ..), ih (fun y hy => h y (List.mem_cons_of_mem _ hy))]; omega
 
+/-- a nested read through a window that the value's encoding fills exactly, whatever is done with the decoder's error
+    and count (`checked`, `stores`): the decoder succeeds, so the field is assigned -/
+theorem step_readSubWin (C : Codecs) (s : UState) (b : Blk) (f typ : String) (n : Nat) (ck st : Bool)
+    (pre mid post : Bytes) (v : Tup) (hblk : s.blk b = pre ++ (mid ++ post)) (hoff : s.offset = pre.length)
+    (hwin : n = mid.length) (hdec : C.dec typ mid = .ok (v, mid.length)) :
+    runUStmt C s (.readSub b f typ (some n) false ck st) =
+      .next { s with env := s.env.set f (.t v), bytesRead := if st then mid.length else s.bytesRead } := by
+  have hs : sliceC (s.blk b) (s.ext b) s.offset (s.offset + n) = .ok mid := by
+    rw [hblk, hoff]; exact sliceC_mid pre mid post _ n hwin
+  simp only [runUStmt, Bool.false_eq_true, if_false, hs, hdec]
+
 /-- what the run may rely on in the receiving structure (`recvFields`): a fixed array has the length the sender's has -/
 def Recv (fs : List String) (e env' : Env) : Prop :=
   ∀ f ∈ fs, ∃ old xs, e.get f = some (.ns old) ∧ env'.get f = some (.ns xs) ∧ old.length = xs.length
@@ -300,7 +311,26 @@ theorem guard_passesL {C : Codecs} {T : String → Prop} (hC : LawfulCodecs C T)
   | case27 e' r _ => intro u pos seen s pad _ _ hg; simp [guardFitsL] at hg
   | case28 r _ => intro u pos seen s pad _ _ hg; simp [guardFitsL] at hg
   | case29 r _ => intro u pos seen s pad _ _ hg; simp [guardFitsL] at hg
-  | case30 head tail h1 h2 h3 h4 h5 h6 h7 h8 h9 h10 h11 h12 h13 h14 h15 h16 h17 h18 h19 =>
+  | case30 b' f t ck st m r _ =>
+    intro u pos seen s pad hl hok hg hrel hfit hinv hag hsz hpd
+    simp only [layoutUL, if_true, Option.map_eq_some_iff] at hl
+    obtain ⟨u', hl', rfl⟩ := hl
+    simp only [okUL, Bool.and_eq_true, beq_iff_eq] at hok
+    simp only [guardFitsL, Bool.and_eq_true, beq_iff_eq] at hg
+    obtain ⟨rfl, hle⟩ := hg
+    obtain ⟨v, bs, hget, henc, hT⟩ := hfit (.sub b f t (some m)) (List.mem_cons_self ..)
+    obtain ⟨pre, hblk, hoff⟩ := hinv.at (sl := .sub b f t (some m)) hok.1.1
+    have hfs : fixedSize t = some m := hok.1.2
+    simp only [hfs] at hle
+    have hk := hC.size t m v bs v hT hfs henc
+    obtain ⟨j, hj, hjn⟩ := exprLe_eval s e (.lit m) hle m rfl
+    refine ⟨j, hj, ?_⟩
+    rw [blk_eq_pick]
+    have hlen := congrArg List.length hblk
+    simp only [Slot.blk, slotBytes, hget, henc, List.length_append] at hlen
+    omega
+  | case31 b' f t n ck st m r hne => intro u pos seen s pad hl; simp [layoutUL, hne] at hl
+  | case32 head tail h1 h2 h3 h4 h5 h6 h7 h8 h9 h10 h11 h12 h13 h14 h15 h16 h17 h18 h19 h20 =>
     intro u pos seen s pad hl
     rw [layoutUL] at hl
     · cases hl
@@ -900,7 +930,37 @@ theorem runU_go_layoutL {C : Codecs} {T : String → Prop} (hC : LawfulCodecs C 
     have h1 : runUStmt C s .padIfPOdd = .next { s with pad := if (s.P.length + 3) % 2 = 1 then 1 else s.pad } := by rw [runUStmt]
     rw [go_next r h1]
     exact ih u pos seen _ _ hl hok hrel hfit hrest hinv hag hsz hwc rfl rfl
-  | case30 head tail h1 h2 h3 h4 h5 h6 h7 h8 h9 h10 h11 h12 h13 h14 h15 h16 h17 h18 h19 =>
+  | case30 b f t ck st m r ih =>
+    intro u pos seen s pad hl hok hrel hfit hrest hinv hag hsz hwc hpd hpl
+    simp only [recvFields] at hsz
+    simp only [layoutUL, if_true, Option.map_eq_some_iff] at hl
+    obtain ⟨u', hl', rfl⟩ := hl
+    simp only [okUL, Bool.and_eq_true, beq_iff_eq] at hok
+    obtain ⟨⟨v2, hget2, htup⟩, hrel1⟩ := rel_readSub hrel
+    have hrel' : relationsHold C env' plen pad r = true := by simpa [relationsHold] using hrel1
+    obtain ⟨v, bs, hget, henc, hT⟩ := hfit (.sub b f t (some m)) (List.mem_cons_self ..)
+    have hv : v2 = v := by rw [hget] at hget2; injection hget2 with h; injection h with h; exact h.symm
+    subst hv
+    have hsb : slotBytes C env' (.sub b f t (some m)) = bs := by simp [slotBytes, hget, henc]
+    obtain ⟨pre, hblk, hoff⟩ := hinv.at (sl := .sub b f t (some m)) hok.1.1
+    rw [hsb] at hblk
+    have hfs : fixedSize t = some m := hok.1.2
+    have hm : m = bs.length := (hC.size t m v2 bs v2 hT hfs henc).symm
+    have hdec : C.dec t bs = .ok (v2, bs.length) := by
+      have := hC.rt t v2 bs v2 hT henc htup [] (Or.inl rfl)
+      rwa [List.append_nil] at this
+    have h1 := step_readSubWin C s b f t m ck st pre bs _ v2 ((blk_eq_pick s b).trans hblk) hoff hm hdec
+    have h2 := step_advance C { s with env := s.env.set f (.t v2), bytesRead := if st then bs.length else s.bytesRead }
+      (.lit m) m rfl
+    have hinv' := hinv.step (sl := .sub b f t (some m)) hok.1.1
+    rw [hsb, ← hm] at hinv'
+    obtain ⟨d, hd, hseen, hagree⟩ := ih u' (pos.read b) (f :: seen)
+      { s with env := s.env.set f (.t v2), bytesRead := if st then bs.length else s.bytesRead, offset := s.offset + m } pad hl' hok.2 hrel'
+      (fun sl h => hfit sl (List.mem_cons_of_mem _ h)) (restOnlyLast_tail hrest) hinv' (hag.set f (.t v2) hget) (hsz.set f (.t v2) hget) hwc.tail hpd hpl
+    exact ⟨d, by rw [go_next2 r h1 h2]; exact hd, fun g hg => hseen g (List.mem_cons_of_mem _ hg),
+      fun hnf g hg => hagree hnf g (mem_shift hg)⟩
+  | case31 b f t n ck st m r hne => intro u pos seen s pad hl; simp [layoutUL, hne] at hl
+  | case32 head tail h1 h2 h3 h4 h5 h6 h7 h8 h9 h10 h11 h12 h13 h14 h15 h16 h17 h18 h19 h20 =>
     intro u pos seen s pad hl
     rw [layoutUL] at hl
     · cases hl
